@@ -404,9 +404,18 @@ def run(tier):
         if len(st) != 1:
             raise CheckError('anchor: Otaa::handle_rx stores %s %d times' % (field, len(st)))
         bb, si, s = st[0]
-        v = term_of_operand(bh, s.rv.ops[0]) if s.rv.k == 'use' else ('agg',)
-        src_ok = has_call(v if s.rv.k == 'use' else tuple(term_of_operand(bh, o) for o in s.rv.ops), 'DLSettings::' + field)
-        res.require(guarded_by_call(bh, bb, what) and src_ok, 'C11:Otaa::handle_rx:%s' % field, '%s is not the accept\'s value applied under %s' % (field, what), short_site(bh, bb, si),
+        v = term_of_operand(bh, s.rv.ops[0]) if s.rv.k == 'use' else ('x',) + tuple(term_of_operand(bh, o) for o in s.rv.ops)
+        # each alternative of the stored value: the field's own current value (nothing changes), or the accept's value under the region's test
+        from .c04 import cond_mentions_call
+        alts = rules.value_cases(bh, v, path_conditions(bh, bb)) if s.rv.k == 'use' else [(v, list(path_conditions(bh, bb)))]
+        src_ok, n_new = True, 0
+        for cv, cs_ in alts:
+            if field_path(peel(cv))[1][-1:] == [field] and field_path(peel(cv))[0] == ('param', param_by_name(bh.body, 'configuration')):
+                continue
+            n_new += 1
+            src_ok = src_ok and has_call(cv, 'DLSettings::' + field) and any(cond_mentions_call(bh, x, what) and not cond_false(x) for x in cs_)
+        src_ok = src_ok and n_new >= 1
+        res.require(src_ok, 'C11:Otaa::handle_rx:%s' % field, '%s is not the accept\'s value applied under %s' % (field, what), short_site(bh, bb, si),
                     'DOM(%s => store)+PROVENANCE' % what, instance='Otaa::handle_rx: %s <- DLSettings.%s() if %s' % (field, field, what))
     st = [(bb, si, s) for bb, si, s, root, path in bh.field_writes() if path == ['rx1_delay']]
     okd = len(st) == 1 and st[0][2].rv.k == 'use'
@@ -421,8 +430,14 @@ def run(tier):
         out = []
         for cnd in path_conditions(bh, bb):
             tm = cnd[0]
-            if has_call(tm, 'check_mic_and_decrypt_in_place') and not (allowed_call and has_call(tm, allowed_call)) and tm[0] == 'discr' and is_call(tm[1], 'check_mic_and_decrypt_in_place'):
-                continue
+            if has_call(tm, 'check_mic_and_decrypt_in_place') and not (allowed_call and has_call(tm, allowed_call)):
+                # the authenticity test itself, however it is spelled: match on the Result, on `.ok()` of it, `is_ok()`, `?`
+                core_ = peel(tm)
+                while isinstance(core_, tuple) and core_ and (core_[0] == 'discr' or (core_[0] == 'call' and isinstance(core_[1], str) and
+                                                               core_[1].endswith(('Result::ok', 'Result::is_ok', 'Try::branch')) and len(core_[2]) == 1)):
+                    core_ = peel(core_[1] if core_[0] == 'discr' else core_[2][0])
+                if is_call(core_, 'check_mic_and_decrypt_in_place'):
+                    continue
             if allowed_call and has_call(tm, allowed_call):
                 continue
             out.append((term_str(tm)[:100], cnd[1]))
